@@ -92,6 +92,20 @@ CHECKS = {
                 "(every copy exactly once) rather than by a composed theorem yet. Order clauses rest on natsort (key compared on every name).",
         "technique": "Lean 4 proof (list permutations by induction) + exhaustive-order differential correspondence with estimate_diplotype",
     },
+    "C10": {
+        "text": "Lean model of the selection code of genotype.py (structure sort, major score carry, gap filter, minor score carry and rescaling, "
+                "final filter and sort). Machine-checked for every candidate list and gap: the selected list is a permutation of exactly the "
+                "candidates within gap + SOLUTION_PRECISION of the best score; the best candidate is always kept; the list is sorted by the code's "
+                "key, hence score_i < score_j + 1/1000 for i < j, and 1/1000 < SOLUTION_PRECISION (regenerated constants); score carry and the "
+                "rescaling factor >= 1; an empty stage selects nothing. Tie: stage returns of real genotype() calls on simulated BAMs (ambiguous "
+                "structures, perturbed stage scores, injected empty stages) recorded by wrapping the stage functions from outside and replayed "
+                "through the model, stage by stage; independent Python oracle recomputes the combined scores, the within-gap set and the chain "
+                "consistency (structure <-> alleles <-> minors <-> diplotype) of every reported solution.",
+        "design_ref": "DESIGN.md section 4 (C10)",
+        "note": "Chain consistency is checked by the oracle on every reported solution and follows from C02 major_csat / C04 at model level; "
+                "float truncation int(1000*score) is compared exactly unless the float and exact truncations differ (counted as hazard).",
+        "technique": "Lean 4 proof (sort/filter permutation and order lemmas) + recorded-stage-return replay correspondence with genotype()",
+    },
 }
 
 NOT_YET = "check not built yet (work in progress; see DESIGN.md section 9 build order)"
